@@ -331,7 +331,10 @@ def overlay_effect_problems(files: dict, overlay_name: str):
                 (d / name).write_text(json.dumps(doc), encoding="utf-8")
             lib.registry.files = lambda _pkg, tmp=tmp: sandbox.OrderedDir(tmp)
             lib.registry._registry.pop("iban", None)
-            tables.append(copy.deepcopy(lib.registry.get("iban")))
+            k, got = lib.outcome(lib.registry.get, "iban")
+            if k != "ok":
+                return [(f"loader raises {got} for a non-empty registry directory", sorted(fs), (k, got))]
+            tables.append(copy.deepcopy(got))
         finally:
             lib.registry.files = old_files
             sandbox.restore(snap)
